@@ -422,6 +422,32 @@ class Report:
         return 1 if self.violations else 0
 
 
+_REQ_RE = re.compile(r"(?:From\s+CMinx\s+)?Require\s+(?:Import|Export)?\s*([^.]*?)\.\s", re.S)
+
+
+def property_deps(pid):
+    """theory files (as 'theories/X/Y', no extension) that Properties/<pid>.v transitively requires"""
+    root = COQ / "theories"
+    seen = set()
+    todo = [root / "Properties" / f"{pid}.v"]
+    while todo:
+        f = todo.pop()
+        if not f.exists():
+            continue
+        key = "theories/" + str(f.relative_to(root))[:-2]
+        if key in seen:
+            continue
+        seen.add(key)
+        text = strip_coq_comments(f.read_text())
+        for m in re.finditer(r"From\s+CMinx\s+Require\s+(?:Import|Export)\s+(.*?)\.(?=\s|$)", text, re.S):
+            for mod in m.group(1).split():
+                mod = mod.replace("CMinx.", "")
+                cand = root / (mod.replace(".", "/") + ".v")
+                if cand.exists():
+                    todo.append(cand)
+    return seen
+
+
 def proof_stage(rep, pid, build_res, extra_files=()):
     """Fill the proof-obligation part of the evidence; returns list of broken obligations."""
     broken = []
@@ -444,8 +470,12 @@ def proof_stage(rep, pid, build_res, extra_files=()):
         discharged += 1
     else:
         broken.append(dict(kind="hygiene", detail=hyg[:20]))
+    deps = property_deps(pid)
     for f in build_res["failed_files"]:
-        broken.append(dict(kind="build", file=f))
+        # a file that fails to build breaks this property's obligations only if the property's
+        # theorem file (transitively) requires it
+        if f in deps or not f.startswith("theories/Proofs/") and not f.startswith("theories/Properties/"):
+            broken.append(dict(kind="build", file=f))
     for k, v in build_res["translator_failures"].items():
         broken.append(dict(kind="translator", file=k, log=v[-800:]))
     rep.coverage["obligations"] = n_obl
